@@ -68,7 +68,9 @@ def configurations():
     return ["eph3", "eph2key", "eph3single", "fsdir3", "fsimplicit", "tor_eph", "tor_fs", "eph3_localport", "fs_localport",
             # built from an endpoint description string ("onion:80:controlPort=...:..."): the control connection is made
             # by the endpoint itself (TCPHiddenServiceEndpoint.system_tor -> txtorcon.connect)
-            "str_eph", "str_key", "str_fs_localport", "str_single"]
+            "str_eph", "str_key", "str_fs_localport", "str_single",
+            # the caller hands over a TorConfig that is still bootstrapping (as an instance / in a fired Deferred)
+            "boot_eph", "boot_fs_d"]
 
 
 INVALID = ["eph_stealth", "eph_with_dir", "fs_with_key", "fs_single", "both_auth",
@@ -87,7 +89,8 @@ class Run(object):
             d = TorConfig.from_protocol(self.proto)
             self.sim.pump()
             self.config = d.result
-        self.sim.hold = lambda line: line.startswith("ADD_ONION") or line.startswith("SETCONF HiddenService")
+        self.sim.hold = lambda line: (line.startswith("ADD_ONION") or line.startswith("SETCONF HiddenService") or
+                                      (cfg.startswith("boot_") and line == "GETINFO config/names"))
         self.reactor = ListenReactor(fail_bind=(fault == "bind"))
         self.config_d = defer.Deferred()
         self.fired = []
@@ -146,6 +149,15 @@ class Run(object):
             self.tmp = tempfile.mkdtemp(prefix="verif-hs-")
             self.public = 22
             return tor.create_filesystem_onion_endpoint(22, self.tmp, version=3)
+        if cfg in ("boot_eph", "boot_fs_d"):
+            booting = TorConfig(self.proto)          # starts bootstrapping; the first query stays unanswered for now
+            self.sim.pump()
+            self.config_d = None
+            if cfg == "boot_eph":
+                return TCPHiddenServiceEndpoint(r, booting, 80, ephemeral=True, version=3)
+            self.tmp = tempfile.mkdtemp(prefix="verif-hs-")
+            self.public = 443
+            return TCPHiddenServiceEndpoint(r, defer.succeed(booting), 443, hidden_service_dir=self.tmp, version=3)
         if cfg == "str_eph":
             return self.from_string("80", controlPort="9051", version="3")
         if cfg == "str_key":
@@ -204,6 +216,12 @@ class Run(object):
                     self.nlog = 0
                     proto.makeConnection(self.tr)
                     self.sim.pump()
+            elif a == "ConfigReady" and self.cfg.startswith("boot_"):
+                # the configuration's bootstrap goes on (or Tor refuses its first query)
+                if self.fault == "config":
+                    self.sim.release(b"551 injected\r\n")
+                else:
+                    self.sim.release()
             elif a == "ConfigReady":
                 if self.config_d is not None:
                     if self.fault == "config":
@@ -268,7 +286,8 @@ class Run(object):
                 result = "err"
                 if v.check(ValueError) and self.ep is None:
                     why = "invalid"
-                elif v.check(InjectedConfigError) or (self.cfg.startswith("str_") and v.check(error.ConnectError)):
+                elif v.check(InjectedConfigError) or (self.cfg.startswith("str_") and v.check(error.ConnectError)) \
+                        or (self.cfg.startswith("boot_") and self.fault == "config" and v.check(TorProtocolError)):
                     why = "config"
                 elif v.check(error.CannotListenError):
                     why = "bind"
